@@ -90,7 +90,18 @@ def generate():
     # ---- findNextIndexForDate()
     fni = _flat(fn_body(src, 'int findNextIndexForDate'))
     ip = re.findall(r'QStringLiteral\("((?:[^"\\]|\\.)*)"\)', fni)
-    need(len(ip) == 3 and ip[0] == 'yyyy-MM-dd', 'findNextIndexForDate: date format + two patterns')
+    def date_shape(body, where):
+        """True: toString(Qt::ISODate) - always ASCII digits; False: toString("yyyy-MM-dd"), which in Qt 5 goes through
+        QLocale::system() and uses the locale's native digits"""
+        if re.search(r'const auto dateStr = date\.toString\(Qt::ISODate\);', body):
+            return True
+        if re.search(r'const auto dateStr = date\.toString\(QStringLiteral\("yyyy-MM-dd"\)\);', body):
+            return False
+        raise AnchorError('ANCHOR NOT FOUND: %s: dateStr = date.toString(Qt::ISODate)' % where)
+    ascii_fni = date_shape(fni, 'findNextIndexForDate')
+    ip = [x for x in ip if x != 'yyyy-MM-dd']
+    ip = [None] + ip
+    need(len(ip) == 3, 'findNextIndexForDate: two patterns')
     need(re.fullmatch(r'%1\\\\\.%2\\\\\.\(\\\\d\+\)\(\\\\\.gz\)\?', core(ip[1])) and
          re.fullmatch(r'%1\\\\\.%2\\\\\.\(\\\\d\+\)\\\\\.%3\(\\\\\.gz\)\?', core(ip[2])),
          'findNextIndexForDate: patterns base\\.DATE\\.(\\d+)[\\.suffix](\\.gz)?')
@@ -109,7 +120,7 @@ def generate():
 
     # ---- generateRotatedFileName()
     grn = _flat(fn_body(src, 'QString generateRotatedFileName'))
-    need(re.search(r'date\.toString\(QStringLiteral\("yyyy-MM-dd"\)\)', grn), 'generateRotatedFileName: date as yyyy-MM-dd')
+    ascii_grn = date_shape(grn, 'generateRotatedFileName')
     if re.search(r'QStringLiteral\("%1\.%2\.%3"\)\.arg\(baseName, dateStr, QString::number\(index\)\);', grn) and \
        re.search(r'QStringLiteral\("%1\.%2\.%3\.%4"\) ?\.arg\(baseName, dateStr, QString::number\(index\), suffix\);', grn):
         onepass = True
@@ -166,5 +177,5 @@ def generate():
         b(one), b(le0), b(idx_max1), b(by_cur))
     out += '  s_anchored := %s; s_escaped := %s; s_gz_optional := %s; s_append := %s;\n' % (
         b(anchored), b(esc_frf and esc_fni), b(gz_opt), b(append))
-    out += '  s_lists_hidden := %s; s_name_onepass := %s |}.\n' % (b(hidden_frf and hidden_fni), b(onepass))
+    out += '  s_lists_hidden := %s; s_name_onepass := %s; s_date_ascii := %s |}.\n' % (b(hidden_frf and hidden_fni), b(onepass), b(ascii_fni and ascii_grn))
     return {'SrcRotate.v': out}
